@@ -95,6 +95,11 @@ structure State where
   wakes : List Wake := []
   outbox : List (Nat × Frame) := [] -- frames delivered to blocked clients during the current request (emptied by `exec`)
   log : List Access := []           -- ghost
+  /- configuration of the wake-up machinery (never changed by the machine; read off Gen/Blocking.lean by the driver —
+     C13's subject, irrelevant to WHICH database is used, so every theorem quantifies over it with the state): -/
+  cfgDeferExecWakes : Bool := false -- wake-ups requested by queued pushes are carried out after the whole EXEC
+  cfgNotifyOnce : Bool := false     -- one notification per push command instead of one per pushed element
+  cfgNoticeHangup : Bool := false   -- the server notices that a blocked client went away and drops its registrations
 
 /-- upper-cased command name, computed exactly as `KS.step` does -/
 def nameOf (cmd : List Bytes) : String :=
@@ -179,7 +184,11 @@ def tryPops (q : Quirks) (c : Nat) (path : Path) (now : Nat) (left : Bool) : Sta
 def timeoutOk (t : Bytes) : Bool :=
   match parseI64 t with
   | some n => decide (n ≥ 0)
-  | none => false
+  | none =>
+    -- `digits.digits` (the generators use 0.05 / 0.1 for time-outs that are meant to fire)
+    let i := t.takeWhile isDigit
+    let f := t.drop (i.length + 1)
+    !i.isEmpty && !f.isEmpty && f.all isDigit && t.drop i.length != f && (t.drop i.length).head? == some 46
 
 def doBpop (q : Quirks) (st : State) (c now : Nat) (inExec left : Bool) (args : List Bytes) : State × Option Frame :=
   if args.length < 2 then (st, some err) else
@@ -229,8 +238,11 @@ def doPush (q : Quirks) (st : State) (c now : Nat) (path : Path) (cmd : List Byt
   match r.2, cmd with
   | .int n, _ :: k :: v :: vs =>
     if n > 0 then
-      let y := processWakes q now (notifyN (v :: vs).length r.1 (st.conns c).db k)
-      ({ y.1 with outbox := y.1.outbox ++ y.2 }, r.2)
+      let st1 := notifyN (if st.cfgNotifyOnce then 1 else (v :: vs).length) r.1 (st.conns c).db k
+      if st.cfgDeferExecWakes && path == .exec then (st1, r.2)          -- served by `exec` after the whole transaction
+      else
+        let y := processWakes q now st1
+        ({ y.1 with outbox := y.1.outbox ++ y.2 }, r.2)
     else r
   | _, _ => r
 
@@ -296,15 +308,43 @@ def exec (w : Switches) (q : Quirks) (st : State) (now c : Nat) (r : Req) : Stat
     let y := processWakes q now x.1
     ({ y.1 with outbox := [] }, ⟨x.2, y.1.outbox ++ y.2⟩)
 
-/-- a history: requests of several connections, interleaved in any way -/
-structure Ev where
-  now : Nat
-  conn : Nat
-  req : Req
+/-! ### What happens to a blocked client without a push: its time-out fires, or it goes away -/
+
+def dropWaiters (st : State) (c : Nat) : State :=
+  { st with waiting := st.waiting.filter (fun x => x.conn != c) }
+
+/-- `process_timeouts`: the client leaves the registry of every key it waited on and is answered the null array -/
+def timeoutConn (st : State) (c : Nat) : State × List (Nat × Frame) :=
+  if (st.conns c).blocked && st.waiting.any (fun x => x.conn == c) then
+    (updConn (dropWaiters st c) c (fun x => { x with blocked := false }), [(c, .nullArray)])
+  else (st, [])
+
+/-- the client closes its socket.  A blocked connection is not read, so unless the server probes it (`cfgNoticeHangup`)
+    it stays registered (and blocked) until a push serves it — into the void; otherwise its registrations are dropped.
+    The connection id is never used again. -/
+def closeConn (st : State) (c : Nat) : State :=
+  if (st.conns c).blocked && !st.cfgNoticeHangup then st
+  else updConn (dropWaiters st c) c (fun _ => {})
+
+/-- a history: requests of several connections, time-outs and hang-ups, interleaved in any way -/
+inductive Ev where
+  | req (now conn : Nat) (r : Req)
+  | timeout (conn : Nat)
+  | close (conn : Nat)
   deriving Repr, DecidableEq
 
+def Ev.conn : Ev → Nat
+  | .req _ c _ => c
+  | .timeout c => c
+  | .close c => c
+
+def stepEv (w : Switches) (q : Quirks) (st : State) : Ev → State
+  | .req now c r => (exec w q st now c r).1
+  | .timeout c => (timeoutConn st c).1
+  | .close c => closeConn st c
+
 def run (w : Switches) (q : Quirks) (st : State) (evs : List Ev) : State :=
-  evs.foldl (fun s e => (exec w q s e.now e.conn e.req).1) st
+  evs.foldl (stepEv w q) st
 
 /-- the store after a list of accesses -/
 def runAcc (q : Quirks) (s : Store) (as : List Access) : Store :=
